@@ -709,10 +709,13 @@ def worker(job, shard, nshards):
         root, path = path_to(src)
         w = World(states[root]["node"][2], keys)
         bad_prefix = False
+        kept = []          # expression objects built along the path (operands of what is built next), with the state that specifies them
         for pi in path:
             ps, plab, pd = edges[pi]
             mirror_step(w, plab, states[ps]["node"][1])
             apply(w, plab)
+            if plab["a"] not in ("Assign", "InPlace", "SetEnv") and w.cur is not None and "locs" in states[pd].get("obs", {}):
+                kept.append((w.cur, states[pd]))
         steps = [edges[i][1] for i in path] + [lab]
         nfail = [0]
 
@@ -744,6 +747,17 @@ def worker(job, shard, nshards):
                 if st["node"][0]["k"] in ("bin", "un", "bi", "call", "dyn", "dyna"):
                     stats["nontrivial"] += 1
                 impl = check_node(w, st, states[src]["node"][0], fail, stats, do_opaque)
+                # C05 on SHARED sub-expression objects: the objects built earlier on this path are operands of the one just examined and were never asked
+                # for their dependencies before; asked now, AFTER the enclosing expression (a per-node memo filled during the enclosing walk would
+                # answer for them), each must still report the locations of its own sub-tree
+                for obj, pst in reversed(kept[-4:]):
+                    d3 = outcome(obj._get_dependencies)
+                    got3 = None if d3.exc or not isinstance(d3.val, set) else {w.loc_of(x) or repr(x) for x in d3.val}
+                    stats["shared_subexpression_queries"] += 1
+                    if got3 != set(pst["obs"]["locs"]):
+                        fail(["C05"], f"operand object {obj!r} of {w.cur!r}, asked after the enclosing expression, reports the dependencies "
+                             f"{sorted(map(str, got3 or []))}; it contains the locations {sorted(pst['obs']['locs'])}", {})
+                        break
                 if len(samples) < 2 and len(steps) >= 2 and not nfail[0]:
                     samples.append({"steps": steps, "expression": str(w.cur), "value": repr(impl), "dependencies": sorted(st["obs"]["locs"])})
         if job.get("digest"):
